@@ -9,21 +9,30 @@ Two halves (DESIGN §6 C04):
      extracted Coq evaluator on the same matrices and must give the implementation's values (exact for
      integer-valued measures, 1e-9 otherwise).  Equivariance of every term is the generic theorem
      C04_symterm_equivariant; the per-measure theorems are its instances.
+ (3) translation: harness/translate_symterm.py re-reads the Python source of ~45 functions on EVERY run and regenerates
+     coq/theories/Gen/SymTermGen.v (gen_table); C04_gen_equivariant is ONE theorem over that table.  The extracted
+     evaluator runs every generated program on the same inputs as the implementation (validates the translator's
+     reading of NumPy) and as the hand-written term of the same measure (syntactic identity decided in Coq where it
+     holds, evaluation otherwise).  A function of GEN_EXPECTED that no longer translates is reported.
 """
 import io, itertools, contextlib
 from fractions import Fraction as F
 import numpy as np
 from common import *
+import traceback
+import translate_symterm as TS
 
 ID = 'C04'
-COQ_FILES = ['Base/Mat.v', 'Base/SumQ.v', 'Model/SymTerm.v', 'Proofs/SymTerm.v', 'Proofs/SymTermLib.v', 'Properties/C04.v']
+COQ_FILES = ['Base/Mat.v', 'Base/SumQ.v', 'Model/SymTerm.v', 'Proofs/SymTerm.v', 'Proofs/SymTermLib.v', 'Gen/SymTermGen.v',
+             'Model/SymTermGenRun.v', 'Proofs/SymTermGenThm.v', 'Properties/C04.v']
 THEOREMS = ['C04_sumQ_reindex', 'C04_symterm_equivariant', 'C04_prog_equivariant',
             'C04_measure_equivariant_scalar', 'C04_measure_equivariant_vector', 'C04_measure_equivariant_matrix',
             'C04_library_equivariant', 'C04_degrees_und', 'C04_clustering_coef_bu', 'C04_transitivity_bu',
             'C04_matching_ind', 'C04_gtom', 'C04_distance_bin', 'C04_kcore_bu', 'C04_participation_coef',
             'C04_module_degree_zscore', 'C04_components', 'C04_assortativity_wei', 'C04_betweenness_bin', 'C04_kcoreness',
             'C04_pagerank_equation_partial', 'C04_eigenvector_equation_partial', 'C04_subgraph_truncation_partial',
-            'C04_list_permutation', 'C04_run_equivariant', 'C04_every_term_measure_equivariant', 'C04_denote_degrees_und', 'C04_denote_transitivity_bu']
+            'C04_list_permutation', 'C04_run_equivariant', 'C04_every_term_measure_equivariant', 'C04_denote_degrees_und', 'C04_denote_transitivity_bu',
+            'C04_gen_equivariant', 'C04_gen_run_equivariant', 'C04_gen_same_as_hand_sound']
 RULE = ('structured graphs (cycles, complete, complete bipartite, stars, paths, disjoint copies, cube: repeated eigenvalues; '
         'isolated nodes) and Erdos-Renyi matrices n=2..8, binary/weighted (dyadic weights from a 2-4 element set: many '
         'ties), directed/undirected, signed, with label vectors (non-contiguous labels); every n! permutation for n<=4 '
@@ -36,9 +45,64 @@ ASSUMES = ['outputs the property leaves free are not compared: eigenvector sign 
            'efficiency: connected graphs)',
            'correspondence inputs are 0/1 or dyadic so that sums and products the terms treat as exact are exact in binary64; '
            'quotients, sqrt, cbrt, LAPACK results are compared with relative tolerance 1e-9']
-TRUSTED = ['ocaml/drv_c04.ml interprets the abstract primitives sqrt/cbrt through binary64 (only used by tolerance-compared measures)']
+TRUSTED = ['harness/translate_symterm.py (Python ast -> SymTerm programs, fail-closed: anything outside the index-symmetric NumPy subset makes the '
+           'function "not translatable"; its reading of NumPy is validated on every run by evaluating each generated program against the implementation)',
+           'ocaml/drv_c04.ml interprets the abstract primitives sqrt/cbrt through binary64 (only used by tolerance-compared measures)']
 
 TOL = 1e-9
+
+# ---------------------------------------------------------------- translator (Gen/SymTermGen.v is regenerated at import)
+GEN, GEN_ERROR = None, None
+
+
+def pregen():
+    """(re)generate coq/theories/Gen/SymTermGen.v from the CURRENT source tree (called by ./check setup and at import)"""
+    global GEN, GEN_ERROR
+    try:
+        GEN = TS.generate(REPO, VERIF)
+        GEN_ERROR = None
+    except Exception:
+        GEN, GEN_ERROR = None, traceback.format_exc()
+        # never leave a stale table behind: the build must fail visibly
+        p = os.path.join(COQ, 'theories', 'Gen', 'SymTermGen.v')
+        os.makedirs(os.path.dirname(p), exist_ok=True)
+        open(p, 'w').write('(* translator crashed *)\nExample translator_crashed : 0 = 1.\nProof. reflexivity. Qed.\n')
+    return GEN
+
+
+pregen()      # ./check imports this module before it builds the Coq files
+
+# what translates on the unchanged tree: a name that disappears from the generated table is reported (the source of
+# that function left the index-symmetric subset: e.g. it now mentions a node position)
+GEN_EXPECTED = ['degrees_und', 'degrees_dir#0', 'degrees_dir#1', 'degrees_dir#2', 'strengths_und', 'strengths_dir',
+                'strengths_und_sign#0', 'strengths_und_sign#1', 'strengths_und_sign#2', 'strengths_und_sign#3',
+                'density_dir#0', 'density_dir#1', 'density_dir#2',
+                'clustering_coef_bu', 'clustering_coef_bd', 'clustering_coef_wu', 'clustering_coef_wd',
+                'transitivity_bu', 'transitivity_bd', 'transitivity_wu', 'transitivity_wd',
+                'clustering_coef_wu_sign#0', 'clustering_coef_wu_sign#1', 'clustering_coef_wu_sign:zhang#0', 'clustering_coef_wu_sign:zhang#1',
+                'clustering_coef_wu_sign:costantini',
+                'binarize', 'normalize', 'invert', 'threshold_absolute',
+                'weight_conversion:binarize', 'weight_conversion:normalize', 'weight_conversion:lengths',
+                'assortativity_bin:1', 'assortativity_bin:2', 'assortativity_bin:3', 'assortativity_bin:4',
+                'assortativity_wei:1', 'assortativity_wei:2', 'assortativity_wei:3', 'assortativity_wei:4',
+                'kcore_bu#0', 'kcore_bu#1', 'kcore_bd#0', 'kcore_bd#1', 'score_wu#0', 'score_wu#1', 'gtom:1']
+# input kinds per translated Python function, sampled scalar parameters, hand-written term (measure id, k) per output
+GEN_DOMAIN = {'degrees_und': ['wu', 'bu'], 'degrees_dir': ['wd', 'bd'], 'strengths_und': ['wu'], 'strengths_dir': ['wd'],
+              'strengths_und_sign': ['su'], 'density_dir': ['bd', 'wd'], 'clustering_coef_bu': ['bu'], 'clustering_coef_bd': ['bd'],
+              'clustering_coef_wu': ['wu'], 'clustering_coef_wd': ['wd'], 'clustering_coef_wu_sign': ['su'], 'transitivity_bu': ['bu'], 'transitivity_bd': ['bd'],
+              'transitivity_wu': ['wu'], 'transitivity_wd': ['wd'], 'binarize': ['wd', 'su'], 'normalize': ['wd', 'su'], 'invert': ['wd', 'su'],
+              'threshold_absolute': ['wd', 'su'], 'weight_conversion': ['wd', 'su'], 'assortativity_bin': ['bd'], 'assortativity_wei': ['wd'],
+              'kcore_bu': ['bu'], 'kcore_bd': ['bd'], 'score_wu': ['wu'], 'gtom': ['bu']}
+GEN_SCALARS = {'threshold_absolute': [(0.5,), (0.75,), (-0.25,)], 'kcore_bu': [(1,), (2,), (3,)], 'kcore_bd': [(1,), (2,), (3,)],
+               'score_wu': [(1.0,), (1.5,)]}
+GEN_HAND = {'degrees_und': (0, 0), 'degrees_dir#0': (1, 0), 'degrees_dir#1': (2, 0), 'degrees_dir#2': (3, 0), 'strengths_und': (4, 0),
+            'strengths_dir': (5, 0), 'density_dir#0': (6, 0), 'clustering_coef_bu': (8, 0), 'clustering_coef_bd': (9, 0),
+            'transitivity_bd': (10, 0), 'transitivity_bu': (11, 0), 'clustering_coef_wu': (12, 0), 'transitivity_wu': (13, 0),
+            'clustering_coef_wd': (45, 0), 'transitivity_wd': (46, 0), 'gtom:1': (18, 1),
+            'kcore_bu#0': (31, 0), 'kcore_bd#0': (32, 0), 'kcore_bu#1': (33, 0), 'kcore_bd#1': (34, 0), 'score_wu#0': (35, 0)}
+for _f in (1, 2, 3, 4):
+    GEN_HAND['assortativity_bin:%d' % _f] = (38, _f)
+    GEN_HAND['assortativity_wei:%d' % _f] = (39, _f)
 # current behaviour of the unchanged tree: len(intersection)/len(union) with an empty union (an edge whose endpoints have no other neighbour)
 RAISES_OK = {('edge_nei_overlap_bu', 'ZeroDivisionError'), ('edge_nei_overlap_bd', 'ZeroDivisionError')}
 
@@ -224,6 +288,13 @@ def table():
         add('gtom:%d' % st, ['bu'], 'm', lambda A, st=st: bct.gtom(A, st))
     add('matching_ind', ['bd', 'bu'], ('m', 'm', 'm'), bct.matching_ind)
     add('matching_ind_und', ['bu'], 'm', bct.matching_ind_und)
+    # utils/other.py (weight conversions: per-pair matrices)
+    add('binarize', ['wd', 'su'], 'm', bct.binarize)
+    add('normalize', ['wd', 'su'], 'm', bct.normalize)
+    add('invert', ['wd'], 'm', bct.invert)
+    add('threshold_absolute', ['wd', 'su'], 'm', lambda W: bct.threshold_absolute(W, 0.5))
+    for wcm in ('binarize', 'normalize', 'lengths'):
+        add('weight_conversion:' + wcm, ['wd'], 'm', lambda W, wcm=wcm: bct.weight_conversion(W, wcm))
     return T
 
 
@@ -529,6 +600,115 @@ def run(ctx):
             ok = np.array_equal(M, w) if exact else close(M, w)
         if not ok:
             ctx.mismatch(name, 'term evaluator and implementation differ', case, M.tolist(), w.tolist())
+    # ------------------------------------------------------------ programs regenerated from the Python source
+    gen_correspondence(ctx, bct, cg)
+
+
+def has_prim(p):
+    return isinstance(p, tuple) and (p[0] == 'Prim' or any(has_prim(x) for x in p[1:]))
+
+
+def gen_correspondence(ctx, bct, cg):
+    """every program regenerated from the source: (a) against the implementation on the same inputs, (b) against the
+       hand-written term of the same measure (syntactic identity decided by the extracted prog_eqb, else evaluation)"""
+    if GEN is None:
+        ctx.errors.append('translate_symterm crashed:\n' + (GEN_ERROR or '')[-1500:])
+        return
+    names = GEN['names']
+    st_fail = TS.selftest()
+    ctx.extra['translator_selftest'] = {'negative_snippets_rejected': len(TS.NEGATIVE), 'positive_snippets_exact': len(TS.POSITIVE), 'failures': st_fail}
+    if st_fail:
+        ctx.errors.append('translate_symterm self-test (fail-closed snippets): ' + '; '.join(st_fail))
+    ctx.extra['generated_programs'] = len(names)
+    ctx.extra['not_translatable'] = {k: v[:200] for k, v in GEN['untranslatable'].items()}
+    for nm in GEN_EXPECTED:
+        if nm not in names:
+            fn = nm.split('#')[0].split(':')[0]
+            ctx.mismatch(fn + ':translation', 'the source of %s no longer translates into the index-symmetric term language '
+                         '(it did on the unchanged tree): %s' % (nm, GEN['untranslatable'].get(nm) or GEN['untranslatable'].get(nm.split('#')[0], 'not generated')),
+                         {'function': fn, 'output': nm}, None, None)
+    fp = run_model(ID, ['gfp', 'gcount'])
+    if is_err(fp[0]) or dec_z(fp[0]) != GEN['fingerprint'] or fp[1] != len(names):
+        ctx.errors.append('the extracted driver was not built from the Gen/SymTermGen.v of this run (fingerprint %r, %r programs; expected %r, %d): '
+                          'a concurrent ./check C04 on another tree? re-run' % (fp[0], fp[1], GEN['fingerprint'], len(names)))
+        return
+    lines, pend = [], []
+    for idx, t in enumerate(GEN['table']):
+        tg = t['target']
+        kinds = GEN_DOMAIN.get(tg['func'])
+        if kinds is None:
+            ctx.count('gen_without_domain:' + t['name'])
+            continue
+        hand = GEN_HAND.get(t['name'])
+        prim = has_prim(t['prog'])
+        f = getattr(bct, tg['func'])
+        for g in cg:
+            for kind in kinds[:1] if (len(cg) > 60 and g['n'] > 5) else kinds:
+                A = g[kind]
+                for ks in GEN_SCALARS.get(tg['func'], [()]):
+                    r, err = safe(lambda: f(A.copy(), *ks, **tg['fixed']))
+                    case = {'generated': t['name'], 'function': tg['func'], 'A': A.tolist(), 'ks': list(ks), 'fixed': tg['fixed']}
+                    if err is not None:
+                        ctx.count('gen_impl_raises:%s:%s' % (tg['func'], err))
+                        continue
+                    w = r[t['index']] if t['index'] is not None else r
+                    w = np.asarray(w, float)
+                    w = w.reshape(1, 1) if w.ndim == 0 else (w.reshape(1, -1) if w.ndim == 1 else w)
+                    kq = [F(k) for k in ks]
+                    lines.append('g %d %s %s %s' % (idx, enc_mat(A.tolist(), enc_q), enc_list([], enc_q), enc_list(kq, enc_q)))
+                    pend.append(('impl', t, w, case, prim))
+                    if hand is not None:
+                        lines.append(enc_case(hand[0], hand[1], A, (), kq))
+                        pend.append(('hand', t, w, case, prim))
+    sync = {}
+    for idx, t in enumerate(GEN['table']):
+        hand = GEN_HAND.get(t['name'])
+        if hand is not None:
+            lines.append('gsame %d %d %d' % (idx, hand[0], hand[1])); pend.append(('same', t, None, None, None))
+    res = run_model(ID, lines)
+    ctx.model_cases += len(lines)
+    last = None
+    status = {}
+    for (what, t, w, case, prim), m in zip(pend, res):
+        name = t['name']
+        fn = t['target']['func']
+        if is_err(m):
+            ctx.mismatch('model-error:gen:' + name, m['error'], case); continue
+        if what == 'same':
+            sync[name] = bool(m)
+            continue
+        Mq = [[dec_q(x) for x in rowv] for rowv in m]
+        M = np.array([[float(x) for x in rowv] for rowv in Mq], float)
+        if what == 'impl':
+            last = (Mq, M)
+            ctx.count('gen:' + name)
+            if M.shape != w.shape:
+                ctx.mismatch(fn + ':generated', 'program generated from the source and implementation differ in shape', case, M.tolist(), w.tolist()); continue
+            mask = np.isfinite(w)
+            if not mask.all():
+                ctx.count('gen_nonfinite_entries_skipped:' + name)
+            if not close(M[mask], w[mask]):
+                ctx.mismatch(fn + ':generated', 'the program generated from the current source (%s) and the implementation differ: the translator misreads NumPy here' % name,
+                             case, M.tolist(), w.tolist())
+                status[name] = 'DISAGREES with the implementation'
+        else:
+            gq, gM = last
+            if gM.shape != M.shape:
+                ctx.mismatch(fn + ':generated-vs-handwritten', 'shape', case, gM.tolist(), M.tolist()); continue
+            mask = np.isfinite(w) if w.shape == M.shape else np.ones(M.shape, bool)
+            if prim:
+                ok = close(gM[mask], M[mask])
+            else:
+                ok = all(gq[i][j] == Mq[i][j] for i in range(M.shape[0]) for j in range(M.shape[1]) if mask[i, j])
+            ctx.count('gen_vs_hand:' + name)
+            if not ok:
+                ctx.mismatch(fn + ':generated-vs-handwritten', 'the program generated from the current source (%s) and the hand-written library term (measure_by_id %d %d) '
+                             'differ on this input: the code no longer computes the measure the term describes' % ((name,) + GEN_HAND[name]), case, gM.tolist(), M.tolist())
+                status[name] = 'DIFFERS from the hand-written term'
+    ctx.extra['generated_vs_handwritten'] = {t['name']: (status.get(t['name']) or ('syntactically identical (decided in Coq: gen_same_as_hand)' if sync.get(t['name'])
+                                                                                   else ('equal on all sampled inputs (evaluated)' if t['name'] in GEN_HAND else 'no hand-written term; compared with the implementation only')))
+                                             for t in GEN['table']}
+    ctx.extra['generated_sizes'] = {t['name']: t['size'] for t in GEN['table']}
 
 
 def _pagerank_raw(bct, A, d):
